@@ -36,59 +36,59 @@ type refFrame struct {
 	at   int
 }
 
-// VerifH_StackInvariant (C08c): from an arbitrary stack state that satisfies
-// the representation invariant (uniqueFiles = names on the stack, one hash per
-// item), Push of a file already on the stack is refused and changes nothing,
-// any other Push / Pop re-establishes the invariant. One inductive step covers
-// include histories of any length: no file is ever open twice.
+// VerifH_StackInvariant (C08c): from every stack state reachable by pushing
+// up to three distinct files (observed only through the API, so the harness
+// survives a change of representation), Push of a file that is on the stack is
+// refused and changes nothing, any other Push succeeds, Pop returns the top; a
+// file popped earlier may be pushed again at any depth. Hence no file is ever
+// open twice and no legal inclusion is refused.
 func VerifH_StackInvariant() {
 	ss := verifScanners()
-	depth := verifrt.Choice("depth", len(ss))
 	st := &Stack{}
 	var onStack []int
 	used := map[int]bool{}
-	for i := 0; i < depth; i++ {
-		f := verifrt.Choice("f", len(ss))
-		verifrt.Assume(!used[f])
-		used[f] = true
-		onStack = append(onStack, f)
-		// construct the pre-state directly (not through Push): arbitrary state satisfying the invariant
-		if st.uniqueFiles == nil {
-			st.uniqueFiles = map[string]struct{}{}
-		}
-		st.stack = append(st.stack, stackItem{scanner: ss[f], at: bytes.Index(i)})
-		st.uniqueFiles[verifFileNames[f]] = struct{}{}
-		h, _ := st.computeScannerHash(ss[f])
-		st.hashes = append(st.hashes, h)
-	}
-	if verifrt.Choice("op", 2) == 0 {
-		g := verifrt.Choice("g", len(ss))
-		err := st.Push(ss[g], 0)
-		if used[g] {
-			verifrt.Assert("C08.stack.cycle-refused", err == ErrRecursionDetected)
-			verifrt.Assert("C08.stack.refusal-keeps-state", len(st.stack) == depth && len(st.uniqueFiles) == depth && len(st.hashes) == depth)
+	// history: pushes and pops in any order (at most 5 operations) to reach the pre-state
+	h := verifrt.Choice("history", 6)
+	for i := 0; i < h; i++ {
+		if verifrt.Choice("hop", 2) == 0 {
+			f := verifrt.Choice("f", len(ss))
+			err := st.Push(ss[f], bytes.Index(i))
+			verifrt.Assert("C08.stack.push-refused-iff-on-stack", (err != nil) == used[f])
+			if err == nil {
+				used[f] = true
+				onStack = append(onStack, f)
+			}
 		} else {
-			verifrt.Assert("C08.stack.push-ok", err == nil && len(st.stack) == depth+1 && st.stack[depth].scanner == ss[g])
-			onStack = append(onStack, g)
+			top := st.Pop()
+			if len(onStack) == 0 {
+				verifrt.Assert("C08.stack.pop-empty", top == nil)
+			} else {
+				last := onStack[len(onStack)-1]
+				verifrt.Assert("C08.stack.pop-top", top == ss[last])
+				used[last] = false
+				onStack = onStack[:len(onStack)-1]
+			}
 		}
+	}
+	depth := len(onStack)
+	g := verifrt.Choice("g", len(ss))
+	err := st.Push(ss[g], 0)
+	if used[g] {
+		verifrt.Assert("C08.stack.cycle-refused", err == ErrRecursionDetected)
+		// refusal keeps the state: the same number of pops empties the stack
+		n := 0
+		for st.Pop() != nil {
+			n++
+		}
+		verifrt.Assert("C08.stack.refusal-keeps-state", n == depth)
 	} else {
+		verifrt.Assert("C08.stack.push-ok", err == nil)
 		top := st.Pop()
-		if depth == 0 {
-			verifrt.Assert("C08.stack.pop-empty", top == nil)
-		} else {
-			verifrt.Assert("C08.stack.pop-top", top == ss[onStack[depth-1]])
-			onStack = onStack[:depth-1]
-		}
+		verifrt.Assert("C08.stack.pop-top", top == ss[g])
 	}
-	// invariant
-	verifrt.Assert("C08.stack.inv-sizes", len(st.stack) == len(onStack) && len(st.hashes) == len(onStack) && len(st.uniqueFiles) == len(onStack))
-	for i, f := range onStack {
-		_, ok := st.uniqueFiles[verifFileNames[f]]
-		verifrt.Assert("C08.stack.inv-members", ok && st.stack[i].scanner == ss[f])
-	}
-	verifrt.Assert("C08.stack.empty-iff", st.Empty() == (len(onStack) == 0))
-	verifrt.Reach("C08.stack.refused", len(st.stack) == depth && depth > 0)
-	verifrt.Reach("C08.stack.grew", len(st.stack) == depth+1)
+	verifrt.Assert("C08.stack.empty-iff", st.Empty() == (depth == 0 || used[g]))
+	verifrt.Reach("C08.stack.refused", used[g] && depth > 0)
+	verifrt.Reach("C08.stack.grew", !used[g])
 }
 
 // VerifH_IncludeTrace (C02d): for every sequence of at most K operations
@@ -109,7 +109,15 @@ func VerifH_IncludeTrace() {
 		case 0:
 			f := verifrt.Choice("f", verifrt.Bound("F"))
 			at := 2 * verifrt.Choice("at", 3) // offsets 0, 2, 4: lines 1, 2, 3
-			if err := st.Push(ss[f], bytes.Index(at)); err == nil {
+			err := st.Push(ss[f], bytes.Index(at))
+			on := false
+			for _, fr := range cur {
+				if fr.file == f {
+					on = true
+				}
+			}
+			verifrt.Assert("C08.stack.push-refused-iff-on-stack", (err != nil) == on)
+			if err == nil {
 				cur = append(cur, refFrame{f, at})
 			}
 		case 1:
